@@ -490,7 +490,11 @@ class _Flattener:
         def scan(e: ast.AST) -> None:
             if found:
                 return
-            if isinstance(e, (ast.Lambda, ast.ListComp, ast.SetComp, ast.DictComp, ast.GeneratorExp, ast.IfExp)):
+            if isinstance(e, (ast.ListComp, ast.SetComp, ast.DictComp, ast.GeneratorExp)):
+                # the iterable of the first `for` of a comprehension is evaluated once, in the enclosing scope: a helper call there can be hoisted
+                scan(e.generators[0].iter)
+                return
+            if isinstance(e, (ast.Lambda, ast.IfExp)):
                 return
             if isinstance(e, ast.BoolOp):
                 scan(e.values[0])
